@@ -102,7 +102,10 @@ Record fseen := mk_fseen {
   fs_cols : list (dtype * list val);
   fs_shape : Z * Z;
   fs_layout : list (Z * bool);        (* (width, is 2-D) of every block, for M only *)
-  fs_readable : list bool             (* reading by label i gives data column i, for S only *)
+  fs_readable : list bool;            (* reading by label i gives data column i, for S only *)
+  fs_dtypes : list dtype;             (* TypeBlocks._dtypes (kernel level) *)
+  fs_rowdt : option dtype;            (* TypeBlocks._row_dtype (kernel level), for M only *)
+  fs_dtypes_public : bool             (* frame.dtypes is readable and lists exactly those dtypes, for S only *)
 }.
 
 Definition fstep_rec := (vgop * outcome * option fseen)%type.
@@ -117,7 +120,9 @@ Definition fobs_M_eqb (f : vfgo) (ob : fseen) : bool :=
   labs_eqb (fo_labels m) (fs_labels ob) && (fo_npos m =? fs_npos ob) &&
   cols_eqb (fo_cols m) (fs_cols ob) &&
   (fst (fo_shape m) =? fst (fs_shape ob)) && (snd (fo_shape m) =? snd (fs_shape ob)) &&
-  layout_eqb (layout_of (f_tb f)) (fs_layout ob).
+  layout_eqb (layout_of (f_tb f)) (fs_layout ob) &&
+  list_eqb dtype_eqb (t_dtypes (f_tb f)) (fs_dtypes ob) &&
+  option_eqb dtype_eqb (t_rowdt (f_tb f)) (fs_rowdt ob).
 
 Fixpoint check_fgo_M_from (f : vfgo) (h : list fstep_rec) : bool :=
   match h with
@@ -149,7 +154,8 @@ Definition fobs_S_eqb (f : vsfr) (ob : fseen) : bool :=
   labs_eqb (fo_labels m) (fs_labels ob) && (fo_npos m =? fs_npos ob) &&
   cols_eqb (fo_cols m) (fs_cols ob) &&
   (fst (fo_shape m) =? fst (fs_shape ob)) && (snd (fo_shape m) =? snd (fs_shape ob)) &&
-  list_eqb Bool.eqb (fo_readable m) (fs_readable ob).
+  list_eqb Bool.eqb (fo_readable m) (fs_readable ob) &&
+  list_eqb dtype_eqb (map fst (fo_cols m)) (fs_dtypes ob) && fs_dtypes_public ob.
 
 Fixpoint check_fgo_S_from (f : vsfr) (h : list fstep_rec) : bool :=
   match h with
@@ -165,3 +171,143 @@ Fixpoint check_fgo_S_from (f : vsfr) (h : list fstep_rec) : bool :=
 
 Definition check_fgo_S (rows labels : list val) (blocks : list vblk) (h : list fstep_rec) : bool :=
   check_fgo_S_from (mk_sfr rows labels (flat_map blk_flat blocks)) h.
+
+(* ---------------------------------------------------------------- IndexHierarchyGO histories *)
+Require Import SF.GrowOnlyHier.
+
+Notation vhgo := (hgo val).
+Notation vhop := (hop val).
+
+Record hseen := mk_hseen {
+  hs_labels : list (list val);     (* list(ih): iteration over the tree *)
+  hs_len : Z;                      (* len(ih) *)
+  hs_coherent : option bool        (* when the harness also read values / positions / loc_to_iloc /
+                                      membership: do they all agree with the iteration? *)
+}.
+
+Definition hstep_rec := (vhop * outcome * hseen)%type.
+
+Definition tuples_eqb := list_eqb (list_eqb lab_eq).
+
+Fixpoint check_hgo_M_from (h : vhgo) (hist : list hstep_rec) : bool :=
+  match hist with
+  | [] => true
+  | (op, out, seen) :: r =>
+      let '(h1, o) := M_hstep val lab_eq h op in
+      outcome_eqb o out &&
+      tuples_eqb (flatten val (h_tree h1)) (hs_labels seen) &&
+      (lvl_len val (h_tree h1) =? hs_len seen) &&
+      check_hgo_M_from h1 r
+  end.
+
+Definition check_hgo_M (t : lvl val) (depth : Z) (hist : list hstep_rec) : bool :=
+  check_hgo_M_from (mk_hgo t depth) hist.
+
+Fixpoint check_hgo_S (depth : Z) (before : list (list val)) (hist : list hstep_rec) : bool :=
+  match hist with
+  | [] => true
+  | (op, out, seen) :: r =>
+      S_hstep_ok val lab_eq depth before op out (hs_labels seen) &&
+      (if S_hstep_must_reject val lab_eq depth before op then negb (is_ok out) else true) &&
+      (hs_len seen =? zlen (hs_labels seen)) &&
+      match hs_coherent seen with Some false => false | _ => true end &&
+      check_hgo_S depth (hs_labels seen) r
+  end.
+
+(* ---------------------------------------------------------------- worlds of frames: conversions and growth *)
+Require Import SF.GrowOnlyShare Gen.Gen_c09 SF.GrowOnlyWorld.
+
+Notation vworld := (world val val).
+Notation vwop := (wop val val).
+
+Definition fcls_eqb (a b : fcls) : bool :=
+  match a, b with KFrame, KFrame | KFrameGO, KFrameGO | KFrameHE, KFrameHE => true | _, _ => false end.
+
+(* what is seen of one frame: class, column labels, columns *)
+Definition fview := (fcls * list val * list (dtype * list val))%type.
+Definition fview_eqb (a b : fview) : bool :=
+  fcls_eqb (fst (fst a)) (fst (fst b)) && labs_eqb (snd (fst a)) (snd (fst b)) && cols_eqb (snd a) (snd b).
+Definition fview_content_eqb (a b : fview) : bool :=
+  labs_eqb (snd (fst a)) (snd (fst b)) && cols_eqb (snd a) (snd b).
+
+Record wseen := mk_wseen {
+  ws_frames : list fview;
+  ws_same_columns : list (Z * Z);    (* pairs i<j of live frames whose _columns is the same object *)
+  ws_same_blocks : list (Z * Z)      (* pairs i<j whose _blocks is the same object *)
+}.
+Definition wstep_rec := (vwop * outcome * wseen)%type.
+
+Definition zpairs_eqb := list_eqb (fun a b : Z * Z => (fst a =? fst b) && (snd a =? snd b)).
+
+Definition w_views (w : vworld) : list fview :=
+  flat_map (fun j => match w_observe val val w j with
+                     | Some (k, _, labels, cols) => [(k, labels, cols)]
+                     | None => []
+                     end) (seq 0 (length (w_frames w))).
+
+Fixpoint pairs_from (i : nat) (x : nat) (rest : list nat) (j : nat) : list (Z * Z) :=
+  match rest with
+  | [] => []
+  | y :: r => (if Nat.eqb x y then [(Z.of_nat i, Z.of_nat j)] else []) ++ pairs_from i x r (S j)
+  end.
+Fixpoint same_pairs (l : list nat) (i : nat) : list (Z * Z) :=
+  match l with
+  | [] => []
+  | x :: r => pairs_from i x r (S i) ++ same_pairs r (S i)
+  end.
+
+Definition w_seen_eqb (w : vworld) (ob : wseen) : bool :=
+  list_eqb fview_eqb (w_views w) (ws_frames ob) &&
+  zpairs_eqb (same_pairs (map fr_cols (w_frames w)) 0) (ws_same_columns ob) &&
+  zpairs_eqb (same_pairs (map fr_tb (w_frames w)) 0) (ws_same_blocks ob).
+
+Fixpoint check_world_M_from (w : vworld) (hist : list wstep_rec) : bool :=
+  match hist with
+  | [] => true
+  | (op, out, seen) :: r =>
+      let '(w1, o) := wstep val val lab_eq val_as_pos cast_val v_resolve w op in
+      outcome_eqb o out && w_seen_eqb w1 seen && check_world_M_from w1 r
+  end.
+
+Definition check_world_M (k : fcls) (auto : bool) (rows labels : list val) (blocks : list vblk) (hist : list wstep_rec) : bool :=
+  match igo_init auto labels with
+  | Ok c => check_world_M_from (mk_world [(negb (cls_go k), c)] [tb_of_blocks val (zlen rows) blocks] [mk_frm k rows 0%nat 0%nat]) hist
+  | Err _ => false
+  end.
+
+(* specification: a growth call on frame i changes no other frame and only appends to frame i;
+   a conversion changes nothing that existed and adds a frame with the source's labels and columns *)
+Fixpoint views_same_except (i : nat) (a b : list fview) (j : nat) : bool :=
+  match a, b with
+  | [], [] => true
+  | x :: ar, y :: br => (if Nat.eqb i j then true else fview_eqb x y) && views_same_except i ar br (S j)
+  | _, _ => false
+  end.
+
+Definition is_prefix_view (old new : fview) : bool :=
+  fcls_eqb (fst (fst old)) (fst (fst new)) &&
+  labs_eqb (snd (fst old)) (firstn (length (snd (fst old))) (snd (fst new))) &&
+  cols_eqb (snd old) (firstn (length (snd old)) (snd new)).
+
+Fixpoint check_world_S (prev : list fview) (hist : list wstep_rec) : bool :=
+  match hist with
+  | [] => true
+  | (op, out, seen) :: r =>
+      let cur := ws_frames seen in
+      match op with
+      | WGrow i _ =>
+          views_same_except i prev cur 0 &&
+          match nth_error prev i, nth_error cur i with
+          | Some a, Some b => if is_ok out then is_prefix_view a b else fview_eqb a b
+          | _, _ => false
+          end
+      | WToFrame i dst | WConstruct i dst =>
+          if is_ok out then
+            list_eqb fview_eqb (firstn (length prev) cur) prev &&
+            match nth_error prev i, skipn (length prev) cur with
+            | Some a, [b] => fview_content_eqb a b
+            | _, _ => false
+            end
+          else list_eqb fview_eqb cur prev
+      end && check_world_S cur r
+  end.
